@@ -13,7 +13,10 @@ OutSign(i) ==
 OutVerify(i) ==
   LET pl == ParseXOnly(i.pk) IN
   [ pret |-> B2I(pl[1]), ret |-> B2I(pl[1] /\ Verify(i.sig, i.msg, i.pk)), icb |-> 0 ]
-Out(ev) == CASE ev.e = "SchnorrSign" -> OutSign(ev.in) [] ev.e = "SchnorrVerify" -> OutVerify(ev.in)
+OutNonceFn(i) ==
+  LET r == NonceFn(i.msg, i.key, i.pk, IF "algo" \in DOMAIN i THEN i.algo ELSE << >>, "algo" \in DOMAIN i, IF "aux" \in DOMAIN i THEN i.aux ELSE << >>) IN
+  IF r[1] = 1 THEN [ ret |-> 1, nonce |-> r[2], icb |-> 0 ] ELSE [ ret |-> 0, icb |-> 0 ]
+Out(ev) == CASE ev.e = "SchnorrSign" -> OutSign(ev.in) [] ev.e = "SchnorrVerify" -> OutVerify(ev.in) [] ev.e = "SchnorrNonceFn" -> OutNonceFn(ev.in)
 
 \* design-level theorems on generated records
 SignSound(i, o) == (o.kret = 1 /\ o.ret = 1) => Verify(o.sig, i.msg, X32(PMulG(FromBytesBE(i.key))))
@@ -35,6 +38,8 @@ AuxPool == << << >>, Zeros(32), Rnd32(4), Rep(255, 32) >>
 Cases ==
        { << "sign32", d, a >> : d \in KeyPool, a \in 1..4 }
   \cup { << "signlen", d, len, a, mode >> : d \in FewKeys, len \in LenPool, a \in 1..3, mode \in {1, 2, 4} }
+  \cup { << "signlen", d, len, a, 5 >> : d \in FewKeys, len \in { 0, 32, 33, 127, 128, 129, 300 }, a \in 1..3 }
+  \cup { << "noncefn", d, len, a, al >> : d \in FewKeys, len \in { 0, 32, 64, 128, 200 }, a \in 1..3, al \in 0..2 }
   \cup { << "signnonce", d, k >> : d \in FewKeys, k \in { Zero, One, N, Add(N, One), Sub(N, One), Max256, FromBytesBE(Rnd32(5)) } }
   \cup { << "signnonce", d, << >> >> : d \in FewKeys }
   \cup { << "vlen", d, len >> : d \in FewKeys, len \in LenPool }
@@ -88,6 +93,10 @@ Expand(c) ==
                                                           ELSE [ key |-> NBytes(c[2]), msg |-> Rnd32(8), mode |-> 0, aux |-> AuxPool[c[3]] ] ]
     [] c[1] = "signlen" -> [ e |-> "SchnorrSign", in |-> IF c[4] = 1 THEN [ key |-> NBytes(c[2]), msg |-> Msg(c[3]), mode |-> c[5] ]
                                                            ELSE [ key |-> NBytes(c[2]), msg |-> Msg(c[3]), mode |-> c[5], aux |-> AuxPool[c[4]] ] ]
+    [] c[1] = "noncefn" ->   \* the exported nonce function called directly: al = 0 no algo, 1 the BIP-340 algo, 2 another algo string
+         LET base == [ key |-> NBytes(c[2]), pk |-> X32(PMulG(IF IsZero(c[2]) THEN One ELSE c[2])), msg |-> Msg(c[3]) ]
+             b2 == IF c[4] = 1 THEN base ELSE base @@ [ aux |-> AuxPool[c[4]] ]
+         IN  [ e |-> "SchnorrNonceFn", in |-> IF c[5] = 0 THEN b2 ELSE b2 @@ [ algo |-> IF c[5] = 1 THEN AlgoBip340 ELSE << 77, 121, 65, 108, 103, 111 >> ] ]
     [] c[1] = "signnonce" -> [ e |-> "SchnorrSign", in |-> IF c[3] = << >> THEN [ key |-> NBytes(c[2]), msg |-> Msg(40), mode |-> 3 ]
                                                              ELSE [ key |-> NBytes(c[2]), msg |-> Msg(40), mode |-> 3, nonce |-> NBytes(c[3]) ] ]
     [] c[1] = "vlen" -> LET m == Msg(c[3])  sg == Sign(NBytes(c[2]), m, Rnd32(9)) IN SV(sg[2], m, X32(PMulG(c[2])))
